@@ -36,6 +36,7 @@ Works well with NetworkX for graph construction. For heavier graph work
 from collections import defaultdict, deque
 from collections.abc import Sequence
 
+from solvor import _verif
 from solvor.types import Result, Status
 
 __all__ = ["max_flow", "min_cost_flow", "solve_assignment"]
@@ -82,6 +83,15 @@ def max_flow[Node](
         for u, v in zip(path, path[1:]):
             residual = capacity[u][v] - flow[u][v] + flow[v][u]
             path_flow = min(path_flow, residual)
+
+        if _verif.ENABLED:  # pragma: no cover
+            _verif.emit(
+                "maxflow_augment",
+                delta=path_flow,
+                hops=len(path) - 1,
+                partial_cancel=any(0 < flow[v][u] < path_flow for u, v in zip(path, path[1:])),
+                full_cancel=any(flow[v][u] >= path_flow > 0 for u, v in zip(path, path[1:])),
+            )
 
         for u, v in zip(path, path[1:]):
             if flow[v][u] > 0:
